@@ -37,7 +37,7 @@ man = {
         "guard": "ten0_serde_avro_fast_verif",
         "enable": "RUSTFLAGS=--cfg ten0_serde_avro_fast_verif (harness/.cargo/config.toml [build] rustflags; checks/C10.sh passes it explicitly to the ASan build). Hook: schema::verif_hooks step counter (reset_steps/steps) used by C19.",
         "baseline_off_cmd": "cd /repo && cargo test --workspace --no-fail-fast --offline",
-        "source_commits": ["0651384"],
+        "source_commits": ["f6db54a"],
         "add_only": True,
     },
     "engines": [
